@@ -68,6 +68,23 @@ func main() {
 			return ps
 		}
 		tip := s.Tip()
+		if lt := s.LedgerTip(); lt >= 0 && lt != tip {
+			// the ledger holds main-chain blocks the state machine has not applied yet (the window
+			// in which the engine's consensus code already reads snapshots): read there WITHOUT
+			// judging the answers; whatever such a read leaves behind must not change the judged
+			// answers once the state has caught up
+			for _, j := range s.T.Path(lt) {
+				if tip >= 0 && s.T.Blocks[j].Height <= s.T.Blocks[tip].Height {
+					continue
+				}
+				if snap, err := s.N.State.CreateSnapshot(s.T.Blocks[j].ID); err == nil {
+					for _, bk := range keyUniverse() {
+						snap.Get(bk[0], []byte(bk[1]))
+						s.Stats["snap.early-reads"]++
+					}
+				}
+			}
+		}
 		if tip < 0 || tip != s.LedgerTip() {
 			return nil
 		}
@@ -153,6 +170,7 @@ func main() {
 	r.Floor("snap.reads", 50000)
 	r.Floor("snap.reads.written-key", 5000)
 	r.Floor("snap.pending", 100)
+	r.Floor("snap.early-reads", 2000)
 	r.Floor("walk.crossfork", 50)
 	r.Floor("txkind.del", 10)
 	r.Assume("audited only while the state machine is synchronised with the ledger tip (the statement speaks of main-chain blocks up to the current tip)")
